@@ -57,7 +57,7 @@ def generate(ctx):
     alias_types = [pa.type_for_alias(k) for k in keys]
     n_cases = ctx.budget(170, 1500)
     for i in range(n_cases):
-        kind = ["dtype", "dtype", "dtype", "parametric", "string", "string", "edit"][i % 7]
+        kind = ["dtype", "dtype", "parametric", "string", "string", "edit", "edit"][i % 7]
         if kind in ("dtype", "parametric"):
             k = rng.randint(1, 4)
             names = rng.sample(NAMES, k)
